@@ -204,6 +204,7 @@ def run_case(case):
             d_init = float(np.max(np.abs(res.trace.init["th_init"] - res2.trace.init["th_init"]))) \
                 if len(res.trace.init["th_init"]) == len(res2.trace.init["th_init"]) else 1.0
             feats = dict(fc_is_last_value=bool(iw.get("wc_type", "Prop") == "Prop" and iv[-1] == "FC"),
+                         fc_requested=bool(iw.get("wc_type", "Prop") == "Prop" and "FC" in iv),
                          initial_content_differs_by_rounding_only=bool(d_init <= 5.0e-4),
                          fc_finer_than_3_decimals=bool(fine_values(spec)))
             names = ("water_flux", "water_storage", "crop_growth")
